@@ -13,7 +13,8 @@
      document_map: drop_file; parse+pass1 from the disk text — written pointwise because each iteration
      only touches the column of its own file — followed by one post pass;
    * the notifications: didOpen, didChange, didSave (ignored by the server), didClose (ignored by the
-     server), willRename/didRename (+ didClose/didOpen of the moved buffer), willDelete.
+     server when [close_handled] = false; otherwise document_map.remove + drop_file + background task),
+     willRename/didRename (+ didClose/didOpen of the moved buffer), willDelete.
    Unbounded nat for files; contents, facts and diagnostics are abstract types.  The interleaving of
    on_change with a running background task is NOT modelled (didOpen = on_change + whole task). *)
 From Coq Require Import List Bool Arith.
@@ -32,6 +33,10 @@ Section LsModel.
   Variable dropped : table -> bool.   (* cleared for the file by Analyzer::drop_file *)
   Variable drained : table -> bool.   (* pending list consumed by analyze_post_pass1 *)
   Variable observable : table -> bool. (* read by something that can end up in a diagnostic *)
+
+  (* shape of the server (instantiated from backend.rs / server.rs by the translator) *)
+  Variable close_handled : bool.  (* Backend implements did_close: forget the buffer, drop the file, re-analyse from disk *)
+  Variable remove_forgets : bool. (* Server::on_remove also removes the path from document_map *)
 
   (* what parse + pass 1 of file g with text c inserts into table t ([] for unparsable text) *)
   Variable pass1 : file -> content -> table -> list fact.
@@ -96,9 +101,13 @@ Section LsModel.
       end in
     mkSrv (post_pass tb') (docmap s) true.
 
-  (* Server::on_remove (willRename / willDelete): drop_file with prj = None *)
+  (* Server::on_remove (willRename / willDelete): drop_file with prj = None (+ document_map.remove) *)
   Definition on_remove (f : file) (s : srv) : srv :=
-    mkSrv (drop_file f (tabs s)) (docmap s) (analysed s).
+    mkSrv (drop_file f (tabs s)) (if remove_forgets then upd (docmap s) f None else docmap s) (analysed s).
+
+  (* Server::did_close: document_map.remove; drop_file; (then a background task) *)
+  Definition forget (f : file) (s : srv) : srv :=
+    mkSrv (drop_file f (tabs s)) (upd (docmap s) f None) (analysed s).
 
   Inductive ev :=
   | Open (f : file)
@@ -133,7 +142,9 @@ Section LsModel.
         end
     | Close f =>
         match editor w f with
-        | Some _ => (mkWorld (disk w) (upd (editor w) f None), s)
+        | Some _ =>
+            let w' := mkWorld (disk w) (upd (editor w) f None) in
+            (w', if close_handled then background w' (forget f s) else s)
         | None => st
         end
     | Rename f g =>
@@ -191,13 +202,13 @@ Section LsModel.
       (forall t g, observable t = true -> s1 t g = s2 t g) -> diagf f s1 = diagf f s2.
 
   (* editor-protocol conditions on a history, evaluated along the run:
-     - a buffer is closed only when it equals the file on disk (didClose is ignored by the server);
+     - a buffer is closed only when it equals the file on disk (unless the server handles didClose);
      - a rename never lands on a path the server still has in document_map. *)
   Definition ev_ok (st : world * srv) (e : ev) : Prop :=
     let (w, s) := st in
     match e with
-    | Close f => forall c, editor w f = Some c -> disk w f = Some c
-    | Rename f g => docmap s g = None
+    | Close f => close_handled = true \/ forall c, editor w f = Some c -> disk w f = Some c
+    | Rename f g => disk w g = None -> docmap s g = None
     | _ => True
     end.
 
